@@ -375,3 +375,15 @@ Theorem ptr_chase_same_address_single_prefix :
   spec_parse_in_addr (sq_name s) = Some v4.
 Proof. exact ptr_chase_single_prefix_lem. Qed.
 Print Assumptions ptr_chase_same_address_single_prefix.
+
+(* the TTL minimum of synthesise, from the source: the `for _, a := range
+   addresses` loop as the translator reads it (dns.A / dns.RR_Header as
+   Records), run from the ceiling min(SOA TTL, MINIMUM) / 600 s, ends with the
+   model's unbounded TTL; the tree's bound is applied to that *)
+Theorem synth_ttl_loop_is_translated :
+  forall ns addrs cut,
+  go_responseWriter_synthesise_loop1_run (map rr_as_A addrs) (ttl_ceiling cur ns)
+  = (GoNext, (map rr_as_A addrs, synth_ttl cur ns addrs None))
+  /\ synth_ttl cur ns addrs cut = bound_ttl cut (synth_ttl cur ns addrs None).
+Proof. exact (synth_ttl_by_gen_loop cur). Qed.
+Print Assumptions synth_ttl_loop_is_translated.
